@@ -132,7 +132,14 @@ func main() {
 			pkgSet[w.PkgPath] = true
 		}
 	}
-	if len(fcs)+len(lemmas)+len(writers) == 0 {
+	var defers []*DefersSpec
+	for _, d := range cs.Defers {
+		if hasProp(d.Props) && *only == "" {
+			defers = append(defers, d)
+			pkgSet[d.PkgPath] = true
+		}
+	}
+	if len(fcs)+len(lemmas)+len(writers)+len(defers) == 0 {
 		fmt.Fprintf(os.Stderr, "no contracts for property %s\n", *prop)
 		os.Exit(2)
 	}
@@ -201,6 +208,9 @@ func main() {
 	wres := &FuncResult{Key: "writers"}
 	for _, w := range writers {
 		wres.Queries = append(wres.Queries, e.CheckWriters(w))
+	}
+	for _, d := range defers {
+		wres.Queries = append(wres.Queries, e.CheckDefers(d))
 	}
 	if len(wres.Queries) > 0 {
 		results = append(results, wres)
